@@ -2,14 +2,24 @@ package main
 
 import (
 	"fmt"
+	"go/types"
 	"strings"
 
 	"golang.org/x/tools/go/ssa"
 )
 
 // walkFn walks a repository function and reports failures as undecided.
+// A name starting with "?" is an optional anchor: a private helper that is
+// only ever called from other analysed functions; when a refactoring folded it
+// into its callers, those are still analysed and nothing is lost.
 func (c *Check) walkFn(rule, name string, cfg WalkConfig) (*ssa.Function, []Path) {
+	optional := strings.HasPrefix(name, "?")
+	name = strings.TrimPrefix(name, "?")
 	fn := c.P.Func(name)
+	if optional && (fn == nil || fn.Blocks == nil) {
+		c.Notes = append(c.Notes, "optional helper "+name+" does not exist in this tree (folded into its callers, which are analysed)")
+		return nil, nil
+	}
 	if fn == nil || fn.Blocks == nil {
 		c.Undecided(rule, name, "anchor function not found in the current tree", "")
 		return nil, nil
@@ -22,6 +32,183 @@ func (c *Check) walkFn(rule, name string, cfg WalkConfig) (*ssa.Function, []Path
 	}
 	c.Evaluations += len(w.Paths)
 	return fn, w.Paths
+}
+
+// freeOfType: the name of the closure's free variable whose variable type
+// satisfies pred ("" if none or several): captured variables are identified by
+// role, not by their source name.
+func freeOfType(cl *ssa.Function, pred func(types.Type) bool) string {
+	if cl == nil {
+		return ""
+	}
+	name, n := "", 0
+	for _, fv := range cl.FreeVars {
+		t := fv.Type()
+		if pt, ok := t.Underlying().(*types.Pointer); ok {
+			t = pt.Elem()
+		}
+		if pt, ok := t.Underlying().(*types.Pointer); ok && pred(pt.Elem()) {
+			name = fv.Name()
+			n++
+			continue
+		}
+		if pred(t) {
+			name = fv.Name()
+			n++
+		}
+	}
+	if n != 1 {
+		return ""
+	}
+	return name
+}
+
+// namedIs: t is the named (non-pointer) type whose qualified name ends in suffix.
+func namedIs(t types.Type, suffix string) bool {
+	n, ok := t.(*types.Named)
+	return ok && strings.HasSuffix(types.TypeString(n, nil), suffix)
+}
+
+// allocOfType: the source name (SSA comment) of the unique local of fn whose
+// type satisfies pred.
+func allocOfType(fn *ssa.Function, pred func(types.Type) bool) string {
+	name, n := "", 0
+	for _, b := range fn.Blocks {
+		for _, in := range b.Instrs {
+			a, ok := in.(*ssa.Alloc)
+			if !ok {
+				continue
+			}
+			switch a.Comment {
+			case "complit", "varargs", "slicelit", "makeslice", "":
+				continue // compiler temporaries
+			}
+			if pred(a.Type().Underlying().(*types.Pointer).Elem()) {
+				name = a.Comment
+				n++
+			}
+		}
+	}
+	if n != 1 {
+		return ""
+	}
+	return name
+}
+
+// freeInitSuffix: the closure's free variable whose initial value in the
+// parent is an access path ending in suffix (e.g. ".SchemaTracksChanges").
+func freeInitSuffix(parent, cl *ssa.Function, suffix string) string {
+	if parent == nil || cl == nil {
+		return ""
+	}
+	vs := freeVarsWhere(parent, cl, func(v ssa.Value) bool { return strings.HasSuffix(renderAddr(v), suffix) })
+	if len(vs) != 1 {
+		return ""
+	}
+	return vs[0]
+}
+
+// localFeedingField: the local of fn whose loaded value is stored into field
+// fieldName of a struct of type typeSuffix.
+func localFeedingField(fn *ssa.Function, typeSuffix, fieldName string) string {
+	for _, b := range fn.Blocks {
+		for _, in := range b.Instrs {
+			st, ok := in.(*ssa.Store)
+			if !ok {
+				continue
+			}
+			fa, ok := st.Addr.(*ssa.FieldAddr)
+			if !ok || fieldName != fieldNameOf(fa) || !strings.HasSuffix(structTypeName(fa.X.Type()), typeSuffix) {
+				continue
+			}
+			if ld, ok := st.Val.(*ssa.UnOp); ok {
+				if a, ok := ld.X.(*ssa.Alloc); ok {
+					return a.Comment
+				}
+			}
+		}
+	}
+	return ""
+}
+
+func fieldNameOf(fa *ssa.FieldAddr) string { return fieldName(fa.X.Type(), fa.Field) }
+
+// varNameOf: the source variable behind an SSA value (a phi of a loop-carried
+// variable, or a load of a local).
+func varNameOf(v ssa.Value) string {
+	switch x := v.(type) {
+	case *ssa.Phi:
+		return x.Comment
+	case *ssa.UnOp:
+		if a, ok := x.X.(*ssa.Alloc); ok {
+			return a.Comment
+		}
+	case *ssa.Convert:
+		return varNameOf(x.X)
+	case *ssa.ChangeType:
+		return varNameOf(x.X)
+	}
+	return ""
+}
+
+// callArgVar: the variable passed at argument position argIdx of the first
+// call in fn accepted by match whose argument is a variable.
+func callArgVar(fn *ssa.Function, match func(cc *ssa.CallCommon) bool, argIdx int) string {
+	if fn == nil {
+		return ""
+	}
+	for _, b := range fn.Blocks {
+		for _, in := range b.Instrs {
+			ci, ok := in.(ssa.CallInstruction)
+			if !ok || !match(ci.Common()) || argIdx >= len(ci.Common().Args) {
+				continue
+			}
+			if n := varNameOf(ci.Common().Args[argIdx]); n != "" {
+				return n
+			}
+		}
+	}
+	return ""
+}
+
+// callArgVarAny: like callArgVar, looking at every matching call until one
+// passes a variable at argIdx.
+func callArgVarAny(fn *ssa.Function, match func(cc *ssa.CallCommon) bool, argIdx int) string {
+	return callArgVar(fn, match, argIdx)
+}
+
+func calleeIs(name string) func(cc *ssa.CallCommon) bool {
+	return func(cc *ssa.CallCommon) bool {
+		f := cc.StaticCallee()
+		return f != nil && (QualName(f) == name || calleeName(f) == name)
+	}
+}
+
+// loopPhiOfType: the unique loop-carried variable (phi at a loop header) of fn
+// whose type satisfies pred.
+func loopPhiOfType(fn *ssa.Function, pred func(types.Type) bool) string {
+	names := map[string]bool{}
+	for _, b := range fn.Blocks {
+		if !isLoopHeader(b) {
+			continue
+		}
+		for _, in := range b.Instrs {
+			phi, ok := in.(*ssa.Phi)
+			if !ok {
+				break
+			}
+			if phi.Comment != "" && phi.Comment != "rangeindex" && pred(phi.Type()) {
+				names[phi.Comment] = true
+			}
+		}
+	}
+	if len(names) != 1 {
+		return ""
+	}
+	for n := range names {
+		return n
+	}
+	return ""
 }
 
 func param(fn *ssa.Function, i int) string {
